@@ -12,6 +12,7 @@ LOCAL DB == INSTANCE Dbl
 LOCAL NL == INSTANCE CelNumLit
 LOCAL DU == INSTANCE CelDuration
 LOCAL TM == INSTANCE CelTime
+LOCAL RX == INSTANCE CelRegex
 
 FnErr == {"fnerr"}
 
@@ -85,12 +86,18 @@ MinMax(args, wantMax) ==
       ELSE IF items = << >> THEN D(R(VNull))                            \* empty: null here, an error in CEL
       ELSE Extreme(items, 2, items[1], wantMax)
 
+\* s.matches(p): a search for the regular expression p in s; patterns outside the fragment CelRegex covers are not pinned
+MatchesFn(this, arg) ==
+  IF this.t # "str" \/ arg.t # "str" THEN D(E({"type", "fnerr"}))
+  ELSE LET p == RX!Parse(arg.cp) IN
+       IF p.ok THEN R(VBool(RX!IsMatch(p.node, this.cp))) ELSE D(R(VBool(TRUE)))
+
 Builtin(name, got) ==
   CASE name = "size"       -> Size(got[1])
     [] name = "contains"   -> ContainsFn(got[1], got[2])
     [] name = "startsWith" -> R(VBool(IsPrefix(got[2].cp, got[1].cp)))
     [] name = "endsWith"   -> R(VBool(IsSuffix(got[2].cp, got[1].cp)))
-    [] name = "matches"    -> D(R(VBool(TRUE)))                          \* regular expressions are not modelled
+    [] name = "matches"    -> MatchesFn(got[1], got[2])
     [] name = "string"     -> NL!ToStringFn(got[1])
     [] name = "bytes"      -> R(VBytes(Utf8Enc(got[1].cp)))
     [] name = "double"     -> NL!ToDoubleFn(got[1])
